@@ -657,6 +657,11 @@ func (channel *Channel) ackMsg(unackedMessage *UnackedMessage, deliveryTag uint6
 
 		channel.metrics.Acknowledge.Counter.Inc(1)
 		channel.metrics.Unacked.Counter.Dec(1)
+	} else {
+		// the queue is gone: the delivery only lives in the channel's and the server's figures
+		channel.metrics.Unacked.Counter.Dec(1)
+		channel.server.GetMetrics().Total.Counter.Dec(1)
+		channel.server.GetMetrics().Unacked.Counter.Dec(1)
 	}
 }
 
